@@ -749,6 +749,45 @@ func (m *Model) Intervals(calendar bool, pred func(Dur) bool) []Span {
 }
 
 // Disturbed reports whether the instance was (re)started, reloaded or crashed in [from,to].
+// OnlyReloads reports whether every disturbance of the instance in [from,to] is
+// an accepted configuration reload, and the instant of the last one.
+func (m *Model) OnlyReloads(from, to Dur) (last Dur, ok bool) {
+	ok = true
+	for _, e := range m.H.Events {
+		if e.Inst != m.Name || e.T < from || e.T > to {
+			continue
+		}
+		switch e.Kind {
+		case "reload":
+			last = e.T
+		case "start", "stop", "crash":
+			ok = false
+		}
+	}
+	return last, ok && last > 0
+}
+
+// AlertGCBetween reports whether a garbage collection of the alert provider
+// (every alert_gc_interval since the instance started) fell into [from,to].
+func (m *Model) AlertGCBetween(from, to Dur) bool {
+	iv := m.P.Opts.AlertGCInterval
+	if iv <= 0 {
+		iv = 30 * time.Minute
+	}
+	var st Dur
+	for _, s := range m.Starts {
+		if s <= from {
+			st = s
+		}
+	}
+	for t := st + iv; t <= to+eps; t += iv {
+		if t >= from-eps {
+			return true
+		}
+	}
+	return false
+}
+
 func (m *Model) Disturbed(from, to Dur) bool {
 	for _, d := range m.Disturb {
 		if d >= from && d <= to {
